@@ -74,6 +74,9 @@ def words_for(lang, rng=None, n_compounds=400):
     for w in base[:: max(1, len(base) // 40)]:
         if w and w.isalpha():
             words.update([" " + w, w + " ", "\t" + w, w + "\u00a0", "\u200b" + w, w + "\u00ad", w.upper().replace("I", "\u0130")])
+    # every single letter and doubled letter as a word or a hyphen part (lemmatizers strip endings: a stem may be empty)
+    for c in "abcdefghijklmnopqrstuvwxyz\u00e9\u00e8\u00fc\u00f1\u00e7":
+        words.update([c, c + c, c + c + c, "x-" + c, c + "-x"])
     # compounds
     rng = rng or SplitMix64(12345)
     alpha = [w for w in base if w and w.isalpha()] + [w for w in tw if w.isalpha()]
